@@ -221,7 +221,7 @@ def run(ctx):
     from . import C08
     sub = core.Ctx('C08', ctx.src, ctx.tier)
     C08.run(sub)
-    rel = ('C08.conjunct-only', 'C08.pushable-shape', 'C08.fetch-filters', 'C08.on-clause-side')
+    rel = ('C08.conjunct-only', 'C08.pushable-shape', 'C08.fetch-filters', 'C08.on-clause-side', 'C08.subselect-kept')
     ctx.setcount('c08_obligations', sum(v[0] for k, v in sub.rules.items() if k in rel))
     ctx.ob('C14.filter-split', 'all', True, '')
     for f in sub.findings:
